@@ -8,118 +8,19 @@
 package main
 
 import (
-	"bytes"
-	"context"
 	"fmt"
-	"io"
-	"net/http"
+	"os"
 	"sort"
 	"strings"
-	"sync"
 	"time"
 
 	"github.com/honeycombio/refinery/collect"
 	"github.com/honeycombio/refinery/config"
-	"github.com/honeycombio/refinery/logger"
-	"github.com/honeycombio/refinery/metrics"
-	"github.com/honeycombio/refinery/pubsub"
-	"github.com/honeycombio/refinery/sample"
-	"github.com/honeycombio/refinery/sharder"
-	"github.com/honeycombio/refinery/transmit"
-	"github.com/honeycombio/refinery/types"
-	peer "github.com/honeycombio/refinery/verifexport/peerx"
-	"github.com/jonboulle/clockwork"
-	"github.com/klauspost/compress/zstd"
-	"github.com/vmihailenco/msgpack/v5"
-	"go.opentelemetry.io/otel/trace/noop"
 
 	"verif/engine/ev"
 	"verif/engine/vsched"
-	"verif/shim/vtime"
+	"verif/fix/e3node"
 )
-
-type nopHealth struct{}
-
-func (nopHealth) Register(string, time.Duration) {}
-func (nopHealth) Unregister(string)              {}
-func (nopHealth) Ready(string, bool)             {}
-
-// upstream is the in-memory Honeycomb: decodes what is finally serialised.
-type upstream struct {
-	mu  sync.Mutex
-	got []string // "traceID/spanID"
-}
-
-var zdec, _ = zstd.NewReader(nil)
-
-func (u *upstream) RoundTrip(r *http.Request) (*http.Response, error) {
-	b, _ := io.ReadAll(r.Body)
-	r.Body.Close()
-	if r.Header.Get("Content-Encoding") == "zstd" {
-		b, _ = zdec.DecodeAll(b, nil)
-	}
-	var evs []map[string]any
-	if err := msgpack.Unmarshal(b, &evs); err != nil {
-		return nil, err
-	}
-	var resp []string
-	u.mu.Lock()
-	for _, e := range evs {
-		d, _ := e["data"].(map[string]any)
-		u.got = append(u.got, fmt.Sprint(d["trace.trace_id"], "/", d["id"]))
-		resp = append(resp, `{"status":202}`)
-	}
-	u.mu.Unlock()
-	return &http.Response{StatusCode: 200, Header: http.Header{"Content-Type": []string{"application/json"}},
-		Body: io.NopCloser(bytes.NewReader([]byte("[" + strings.Join(resp, ",") + "]")))}, nil
-}
-
-type node struct {
-	clk  *clockwork.FakeClock
-	coll *collect.InMemCollector
-	tx   *transmit.DirectTransmission
-	up   *upstream
-	cfg  *config.MockConfig
-}
-
-func build(rate int) *node {
-	clk := clockwork.NewFakeClockAt(time.Unix(1700000000, 0))
-	vtime.Clock = clk
-	cfg := &config.MockConfig{
-		GetTracesConfigVal:     config.TracesConfig{SendTicker: config.Duration(100 * time.Millisecond), SendDelay: config.Duration(200 * time.Millisecond), TraceTimeout: config.Duration(time.Second), MaxBatchSize: 50, BatchTimeout: config.Duration(400 * time.Millisecond)},
-		GetCollectionConfigVal: config.CollectionConfig{IncomingQueueSize: 16, PeerQueueSize: 16, WorkerCount: 1},
-		GetSamplerTypeVal:      &config.DeterministicSamplerConfig{SampleRate: rate},
-		TraceIdFieldNames:      []string{"trace.trace_id"},
-		ParentIdFieldNames:     []string{"trace.parent_id"},
-		SampleCache:            config.SampleCacheConfig{KeptSize: 100, DroppedSize: 1000, SizeCheckInterval: config.Duration(10 * time.Second)},
-	}
-	met := &metrics.NullMetrics{}
-	up := &upstream{}
-	tx := transmit.NewDirectTransmission(types.TransmitTypeUpstream, nil, 50, 400*time.Millisecond, time.Second, true, nil)
-	tx.Clock, tx.Logger, tx.Metrics, tx.Config = clk, &logger.NullLogger{}, met, cfg
-	ptx := &transmit.MockTransmission{}
-	ptx.Start()
-	sf := &sample.SamplerFactory{Config: cfg, Metrics: met, Logger: &logger.NullLogger{}}
-	sf.Start()
-	c := &collect.InMemCollector{
-		Config: cfg, Clock: clk, Logger: &logger.NullLogger{}, Tracer: noop.NewTracerProvider().Tracer("verif"),
-		Health: nopHealth{}, Transmission: tx, PeerTransmission: ptx, PubSub: &pubsub.LocalPubSub{Config: cfg, Metrics: met},
-		Metrics: met, StressRelief: &collect.MockStressReliever{}, SamplerFactory: sf,
-		Peers:   peer.NewMockPeers([]string{"api1"}, "api1"),
-		Sharder: &sharder.MockSharder{Self: &sharder.TestShard{Addr: "api1"}},
-	}
-	return &node{clk, c, tx, up, cfg}
-}
-
-func span(trace, id string, root bool) *types.Span {
-	d := map[string]any{"trace.trace_id": trace, "id": id}
-	if !root {
-		d["trace.parent_id"] = "p"
-	}
-	cfg := &config.MockConfig{TraceIdFieldNames: []string{"trace.trace_id"}, ParentIdFieldNames: []string{"trace.parent_id"}}
-	return &types.Span{TraceID: trace, IsRoot: root, Event: &types.Event{Context: context.Background(), APIHost: "http://hny", APIKey: "key", Dataset: "ds",
-		SampleRate: 1, Timestamp: time.Unix(1700000000, 0), Data: types.NewPayload(cfg, d)}}
-}
 
 type spanSpec struct {
 	Trace, ID string
@@ -136,9 +37,10 @@ type scenario struct {
 func main() {
 	r := ev.New("C36", "model_checking")
 	bound := ev.Pick(r, 1, 2)
-	for _, p := range []string{"collect.go", "cuckooSentCache.go", "cuckoo.go", "direct_transmit.go"} {
-		vsched.SpawnPolicy[p] = "thread"
+	if b := os.Getenv("C36_BOUND"); b != "" {
+		fmt.Sscan(b, &bound)
 	}
+	e3node.SpawnAsThreads()
 	vsched.DaemonSettle = 50
 	vsched.SettleYields = 0
 	scenarios := []scenario{
@@ -154,43 +56,35 @@ func main() {
 	}
 	r.Sharded(len(scenarios), func(si, sn int) {
 		sc := scenarios[si]
-		var n *node
+		var n *e3node.Node
 		var accepted []string
 		var startErr, stopErr error
-		e := &vsched.Explorer{Bound: bound, MaxExecs: ev.Pick(r, 60000, 2000000), Stop: func() bool { return r.Expired(sc.Name) }, Setup: func() {
-			n = build(sc.Rate)
+		e := &vsched.Explorer{AllDeviationsCost: true, Bound: bound, MaxExecs: ev.Pick(r, 60000, 2000000), Stop: func() bool { return r.Expired(sc.Name) }, Setup: func() {
+			n = e3node.Build(e3node.Options{Sampler: &config.DeterministicSamplerConfig{SampleRate: sc.Rate}})
 			accepted = accepted[:0]
 			startErr, stopErr = nil, nil
 			vsched.Go("main", func() {
 				// startup order of main.go (startstop: dependencies first)
-				if err := n.tx.Start(); err != nil {
-					startErr = err
-					return
-				}
-				transmit.VerifC35SetRoundTripper(n.tx, n.up)
-				if err := n.coll.Start(); err != nil {
+				if err := n.Start(); err != nil {
 					startErr = err
 					return
 				}
 				if len(sc.Adv) > 0 {
 					vsched.Go("clock", func() {
 						for _, d := range sc.Adv {
-							n.clk.Advance(d)
+							n.Clk.Advance(d)
 							vsched.Yield()
 						}
 					})
 				}
 				// the routers hand spans to the collector …
 				for _, s := range sc.Spans {
-					if err := n.coll.AddSpan(span(s.Trace, s.ID, s.Root)); err == nil {
+					if err := n.Coll.AddSpan(e3node.Span(s.Trace, s.ID, s.Root)); err == nil {
 						accepted = append(accepted, s.Trace+"/"+s.ID)
 					}
 				}
 				// … and are stopped first (no more AddSpan); then the shutdown sequence, dependants first
-				if err := n.coll.Stop(); err != nil {
-					stopErr = err
-				}
-				if err := n.tx.Stop(); err != nil {
+				if err := n.Stop(); err != nil {
 					stopErr = err
 				}
 			})
@@ -201,10 +95,7 @@ func main() {
 			if x.Quiescent {
 				return "goroutines-left-running: " + strings.Join(pending(x), ",")
 			}
-			n.up.mu.Lock()
-			got := append([]string{}, n.up.got...)
-			n.up.mu.Unlock()
-			sort.Strings(got)
+			got := n.Up.Got()
 			want := append([]string{}, accepted...)
 			sort.Strings(want)
 			r.Distinct("distinct_outcomes", sc.Name+":"+strings.Join(got, ","))
@@ -234,7 +125,7 @@ func main() {
 				return ""
 			}
 			sort.Strings(missing)
-			queued, buffered := collect.VerifC36Leftovers(n.coll)
+			queued, buffered := collect.VerifC36Leftovers(n.Coll)
 			for _, m := range missing {
 				tr := strings.SplitN(m, "/", 2)[0]
 				switch {
